@@ -28,6 +28,25 @@ WITNESS_CLAIM = [[ACCEPT, 1], [ACCEPT, 2], [HANDSHAKE, 1, 0, 7, 1], [REGCLAIM, 2
 EX_ALPHABET_AD = [[ADACCEPT, 1, 1], [ADACCEPT, 2, 0], [HANDSHAKE, 1, 0, 1, 1], [HANDSHAKE, 2, 0, 1, 1], [HANDSHAKE, 2, 0, 2, 1], [ADEND, 1, 0],
                   [ADEND, 2, 1], [CLOSE, 1], [REMOVE, 2], [REGCLAIM, 1, 2], [REGCLAIM, 2, 1], [HEARTBEAT, 1], [SWEEP], [TICK, 3], [KICK, 1, 2]]
 
+def with_inj(op, at, j):
+    """operation `op` during whose interleaving point `at` operation `j` runs to completion"""
+    return (list(op) + [0] * 5)[:5] + [at + 1] + (list(j) + [0] * 5)[:5]
+
+
+# two overlapping logins of ONE client: the first is parked before / after its response write while the second completes
+WITNESS_OVERLAP = [[[ACCEPT, 1], [ACCEPT, 2], with_inj([HANDSHAKE, 1, 0, 7, 1], at, [HANDSHAKE, 2, 0, 7, 1]), [HEARTBEAT, 2], [CLOSE, 1]] for at in (0, 1)] + \
+                  [[[ACCEPT, 1], [ACCEPT, 2], [ACCEPT, 3], [HANDSHAKE, 3, 0, 7, 1], with_inj([HANDSHAKE, 2, 0, 7, 1], at, [HANDSHAKE, 1, 0, 7, 1]), [SWEEP]] for at in (0, 1)]
+# a second record authenticated as the same client but not indexed (tunnel-type login) goes stale while the indexed one stays fresh
+WITNESS_SIBLING_SWEEP = [[ACCEPT, 1], [ACCEPT, 2], [ACCEPT, 3], [HANDSHAKE, 1, 0, 7, 1], [HANDSHAKE, 2, 0, 7, 0], [TICK, 3], [HEARTBEAT, 1], [SWEEP],
+                         [HANDSHAKE, 3, 0, 7, 1]]
+WITNESS_SIBLING_SWEEP2 = [[ACCEPT, 1], [ACCEPT, 2], [HANDSHAKE, 2, 0, 7, 0], [HANDSHAKE, 1, 0, 7, 1], [TICK, 2], [HEARTBEAT, 1], [TICK, 1], [SWEEP], [HEARTBEAT, 1]]
+EX_ALPHABET_SIB = [[HANDSHAKE, 1, 0, 1, 1], [HANDSHAKE, 2, 0, 1, 0], [HANDSHAKE, 3, 0, 1, 1], [REREG, 2, 1], [TICK, 3], [HEARTBEAT, 1], [HEARTBEAT, 2],
+                   [SWEEP], [CLOSE, 1], [REMOVE, 2]]
+# adapter-driven accepts that are refused: connection limit reached, connection id already in use
+CFG_MAXCONN1 = {"maxConn": 1, "maxCtl": 0, "tmo": 2}
+WITNESS_REFUSED_LIMIT = [[ADACCEPT, 1, 0], [ADACCEPT, 2, 0], [ADACCEPT, 3, 1], [ADEND, 1, 0], [ADACCEPT, 2, 0]]
+WITNESS_REFUSED_DUP = [[ACCEPT, 1], [ADACCEPT, 1, 0], [ADACCEPT, 2, 0], [ADACCEPT, 2, 0], [ADEND, 2, 1]]
+
 # lock contention: (config, prefix, A, B) — A and B are started while the harness holds the registry mutex
 LOCK_CASES = [
     ({"maxConn": 0, "maxCtl": 0, "tmo": 2}, [[ACCEPT, 1], [REGRAW, 1, 0]], [AUTHRAW, 1, 5], [REMOVE, 1]),
@@ -82,11 +101,6 @@ EX_ALPHABET_REREG = [[HANDSHAKE, 1, 0, 1, 1], [HANDSHAKE, 2, 0, 1, 1], [HANDSHAK
 EX_INJECT = [[CLOSE, 1, 0, 0, 0], [CLOSE, 2, 0, 0, 0], [KICK, 1, 3, 0, 0], [SWEEP, 0, 0, 0, 0],
              [HANDSHAKE, 2, 0, 1, 1], [HANDSHAKE, 3, 0, 2, 1]]
 HOSTS = {HANDSHAKE: 2, CLOSE: 2, KICK: 4}      # interleaving points (before/after each unlocked I/O call)
-
-
-def with_inj(op, at, j):
-    """operation `op` during whose interleaving point `at` operation `j` runs to completion"""
-    return (list(op) + [0] * 5)[:5] + [at + 1] + (list(j) + [0] * 5)[:5]
 
 
 def rand_inj(rng, op, conns, clients):
@@ -361,6 +375,8 @@ def run(ctx, only_cases=None):
     probes += [{"cfg": CFG_CLOUD_FAIL, "ops": WITNESS_CLOUD_FAIL, "stream": "witness"}, {"cfg": CFG_CLOUD_FAIL, "ops": WITNESS_CLOUD_FAIL_SWEEP, "stream": "witness"},
                {"cfg": CFG0, "ops": WITNESS_PERSISTENT, "stream": "witness"}, {"cfg": CFG_CLOUD_FAIL, "ops": WITNESS_ADAPTER_ERR, "stream": "witness"},
                {"cfg": CFG0, "ops": WITNESS_CLAIM, "stream": "witness"}]
+    probes += [{"cfg": CFG0, "ops": w, "stream": "witness"} for w in WITNESS_OVERLAP + [WITNESS_SIBLING_SWEEP, WITNESS_SIBLING_SWEEP2, WITNESS_REFUSED_DUP]]
+    probes += [{"cfg": CFG_MAXCONN1, "ops": WITNESS_REFUSED_LIMIT, "stream": "witness"}]
     probes += [{"cfg": CFG_CAP2, "ops": w, "stream": "witness"} for w in (WITNESS_CAP_REREG_OLDEST, WITNESS_CAP_REREG_NEWEST,
                                                                             WITNESS_CAP_REREG_UNAUTH, WITNESS_CAP_REREG_NEWSTREAM)]
     if only_cases is not None:
@@ -420,6 +436,10 @@ def run(ctx, only_cases=None):
                  (CFG0, EX_PREFIX, EX_ALPHABET_REREG, 5 if thorough else 3, 41 if thorough else 3, ()),
                  # real adapter (persistent / ordinary transports, EOF / error), cloud control failing on every call, unauthenticated claims
                  (CFG_CLOUD_FAIL, [], EX_ALPHABET_AD, 4 if thorough else 3, 13 if thorough else 3, ()),
+                 # adapter accepts at the connection limit (refused connections must leave nothing behind)
+                 (CFG_MAXCONN1, [], EX_ALPHABET_AD, 4 if thorough else 3, 17 if thorough else 5, ()),
+                 # a non-indexed authenticated sibling of the client's control connection, ticks, heartbeats, sweeps, next login
+                 (CFG0, EX_PREFIX, EX_ALPHABET_SIB, 6 if thorough else 5, 53 if thorough else 31, ()),
                  (CFG0, EX_PREFIX, EX_ALPHABET, 4 if thorough else 2, 61 if thorough else 7, EX_INJECT),
                  ({"maxConn": 0, "maxCtl": 2, "tmo": 2}, EX_PREFIX, EX_ALPHABET_LIMIT, 3 if thorough else 2, 31 if thorough else 7, EX_INJECT)]
         for cfg, prefix, alpha, depth, stride, inject in plans:
